@@ -87,7 +87,7 @@ Definition ex_reaches (ops : list vop) : bool :=
   | None => false
   end.
 
-Example c09_guard_satisfiable : ex_guard ex_ops = true /\ ex_reaches ex_ops = true.
+Example guard_satisfiable : ex_guard ex_ops = true /\ ex_reaches ex_ops = true.
 Proof. split; vm_compute; reflexivity. Qed.
 
 (* the theorem applied to that scenario, with three unrelated shifts *)
@@ -101,8 +101,8 @@ Example c09_shift_ok_instance :
   end = true.
 Proof.
   destruct (ex_new 65533 65534) as [s|] eqn:E; [|vm_compute in E; discriminate].
-  apply c09_model_trace_shift_ok.
-  pose proof (proj1 c09_guard_satisfiable) as G. unfold ex_guard in G. rewrite E in G. exact G.
+  apply model_trace_shift_ok.
+  pose proof (proj1 guard_satisfiable) as G. unfold ex_guard in G. rewrite E in G. exact G.
 Qed.
 
 (* ------------------------------------------------------------------ outside the guard *)
@@ -130,7 +130,7 @@ Lemma bad_check_true :
   end = true.
 Proof. vm_compute. reflexivity. Qed.
 
-Lemma c09_shift_outside_guard_refuted :
+Lemma shift_outside_guard_refuted :
   exists (s : vsock unit) (o : vop) (da db dc : Z),
     c09_guard_vstep (fixed_cc 100000) s o = false /\
     vstep (fixed_cc 100000) (shift_vsock da db dc s) (shift_op da db o) <>
